@@ -209,7 +209,16 @@ func execSeg(c *ctx, line string) (obs string) {
 	}
 	// noteWrite: an append / force-seal returned; if it changed the file, its batch
 	// (es; none for a force-seal) was written
+	armed := "" // kind of the injected failure waiting for the next append / force-seal
 	noteWrite := func(before []byte, es []types.LogEntry, err error) {
+		kind := armed
+		armed = ""
+		if kind != "" && err == nil && !vfs.failWrite && !vfs.failShort && !vfs.failSync {
+			// the injected failure was consumed by this operation and it returned nil
+			c.witness("C10", "failed-io-acknowledged",
+				fmt.Sprintf("an append / force-seal whose I/O failed (E %s) returned nil", kind), line)
+		}
+		vfs.failWrite, vfs.failShort, vfs.failSync = false, false, false
 		if bytes.Equal(before, mf.data) {
 			return
 		}
@@ -218,6 +227,13 @@ func execSeg(c *ctx, line string) (obs string) {
 			under = pend[len(pend)-1]
 		}
 		lastWriteFailed = err != nil
+		if err != nil && kind == "p" {
+			// short write: half of the batch is in the file, it can never be recovered;
+			// the failed batch underneath stays a candidate (the half may not have
+			// changed its bytes)
+			c.stat("short_writes")
+			return
+		}
 		if err != nil {
 			if len(es) > 0 {
 				pend = append(pend, es)
@@ -407,11 +423,15 @@ func execSeg(c *ctx, line string) (obs string) {
 				mf.data = mf.data[:n]
 			}
 		case "E":
-			if ops[i+1] == "w" {
+			switch ops[i+1] {
+			case "w":
 				vfs.failWrite = true
-			} else {
+			case "p":
+				vfs.failShort = true
+			default:
 				vfs.failSync = true
 			}
+			armed = ops[i+1]
 			i++
 		case "F":
 			out = append(out, hx(stripZeros(mf.data)))
@@ -520,13 +540,13 @@ func genFormat(c *ctx, emit func(string)) {
 		}
 		switch r.Intn(6) {
 		case 4: // a failed append, then the same indexes again
-			e := []string{"w", "s"}[r.Intn(2)]
+			e := []string{"w", "s", "p"}[r.Intn(3)]
 			save := next
 			ops = append(ops, "E "+e, genBatch(r, &next, limit), "L", "Q")
 			next = save
 			ops = append(ops, genBatch(r, &next, limit), "L", "Q")
 		case 5: // a failed force-seal, then the retry
-			ops = append(ops, "E "+[]string{"w", "s"}[r.Intn(2)], "S", "Q", "S", "Q")
+			ops = append(ops, "E "+[]string{"w", "s", "p"}[r.Intn(3)], "S", "Q", "S", "Q")
 		case 0:
 			ops = append(ops, "S", "Q")
 		case 1: // non-monotonic / empty batch probes
@@ -590,13 +610,13 @@ func genSegCrash(c *ctx, emit func(string)) {
 	// failed SEALING batch (its index frame and sealing commit stay in the file behind the
 	// valid chain), then a batch with a different number of entries that fits and succeeds:
 	// recovery walks over a stale index frame whose length matches nothing before it
-	for k := 0; k < 4; k++ {
+	for k := 0; k < 6; k++ {
 		limit := 256
 		base := uint64(1 + r.Intn(1000))
 		ops := []string{fmt.Sprintf("seg %x %x 1 %x %x", base, r.Uint64()>>uint(r.Intn(64)), limit, limit),
 			batchOf(r, base, []int{8 + 8*r.Intn(3)})}
 		big := []int{40, 48, 56, 40 + 8*r.Intn(4), 48, 40}[:4+k%3] // > 256 bytes of frames: seals
-		ops = append(ops, []string{"E s", "E w"}[k%2], batchOf(r, base+1, big), "L", "Q")
+		ops = append(ops, []string{"E s", "E w", "E s", "E w", "E p", "E p"}[k], batchOf(r, base+1, big), "L", "Q")
 		small := []int{16, 24}[:1+k%2] // fewer entries, fits: succeeds unsealed
 		ops = append(ops, batchOf(r, base+1, small), "L", "Q")
 		if k >= 2 {
@@ -787,10 +807,20 @@ func genFailChain(r *rand.Rand, c *ctx, variant int) string {
 		fa = "E w" // a never reaches the file
 	case 7:
 		fb = "E w"
+	case 3:
+		fb = "E p" // b is written to its first half only, over the start of a
+	case 2:
+		if variant%16 == 10 {
+			fa = "E p" // only the first half of a is in the file
+		}
 	}
 	cFails := variant%5 == 4
+	cShort := cFails && variant%2 == 1 // c fails with a short write: nothing of it may be recovered
 	ops = append(ops, fa, batchOf(r, next, sa), "L", fb, batchOf(r, next, sb), "L")
-	if cFails {
+	if cShort {
+		ops = append(ops, "E p", batchOf(r, next, sc), "L")
+		c.stat("failchain_short_last")
+	} else if cFails {
 		ops = append(ops, "E s", batchOf(r, next, sc), "L")
 	} else {
 		ops = append(ops, batchOf(r, next, sc), "L")
@@ -799,7 +829,7 @@ func genFailChain(r *rand.Rand, c *ctx, variant int) string {
 	for _, n := range sc {
 		lenC += frameLen(n)
 	}
-	known := true // do we know what recovery returns?
+	known := !cShort // do we know what recovery returns?
 	switch variant % 3 {
 	case 0:
 		ops = append(ops, "R")
@@ -870,11 +900,13 @@ func genFailMix(r *rand.Rand, c *ctx) string {
 				sizes[x] = 1 + r.Intn(40)
 			}
 		}
-		switch r.Intn(5) {
+		switch r.Intn(6) {
 		case 0, 1:
 			ops = append(ops, "E s", batchOf(r, next, sizes))
 		case 2:
 			ops = append(ops, "E w", batchOf(r, next, sizes))
+		case 3:
+			ops = append(ops, "E p", batchOf(r, next, sizes))
 		default:
 			ops = append(ops, batchOf(r, next, sizes))
 			next += uint64(k)
